@@ -8,6 +8,7 @@ package main
 
 import (
 	"fmt"
+	"os"
 	"strings"
 )
 
@@ -96,6 +97,215 @@ func (b *Box) Both() int {
 }
 `
 
+// the wait tracking: a server whose goroutines are covered by a WaitGroup and which has a done channel
+const lsSelfWait = `package p
+
+import "sync"
+
+type Srv struct {
+	mu      sync.Mutex
+	wg      sync.WaitGroup
+	done    chan struct{}
+	quit    chan struct{}
+	n       int
+	stopped bool
+}
+
+func (s *Srv) Start() {
+	s.wg.Add(1)
+	go func() {
+		defer s.wg.Done()
+		s.loop()
+	}()
+	s.wg.Add(1)
+	go s.worker()
+}
+
+func (s *Srv) loop() {
+	s.mu.Lock()
+	s.n++
+	s.mu.Unlock()
+}
+
+func (s *Srv) worker() {
+	defer s.wg.Done()
+	s.tick()
+}
+
+func (s *Srv) tick() {
+	select {
+	case <-s.quit:
+	case <-s.done:
+	}
+}
+
+func (s *Srv) finish() {
+	s.mu.Lock()
+	s.n = 0
+	s.mu.Unlock()
+	close(s.done)
+}
+
+func (s *Srv) join() {
+	s.wg.Wait()
+}
+
+func (s *Srv) Stop() {
+	s.mu.Lock()
+	s.stopped = true
+	s.mu.Unlock()
+	s.join()
+}
+
+func (s *Srv) Await() {
+	s.mu.Lock()
+	n := s.n
+	s.mu.Unlock()
+	_ = n
+	<-s.done
+}
+`
+
+func lsRunWaitSnippet(src string) (*lsOut, error) {
+	return lsAnalyze("m", []lsTarget{{"", "Srv", []string{"n", "stopped"}}}, map[string]map[string]string{"": {"p.go": src}})
+}
+
+func lsHasWait(o *lsOut, fn, held, group string) bool {
+	for _, w := range o.waits {
+		if strings.HasPrefix(w.fn, fn) && w.group == group && strings.Join(w.held, ",") == held {
+			return true
+		}
+	}
+	return false
+}
+
+func lsHasCover(o *lsOut, group, target, whereHas string) bool {
+	for _, c := range o.covers {
+		if c.group == group && c.target == target && strings.Contains(c.where, whereHas) {
+			return true
+		}
+	}
+	return false
+}
+
+func lsCycleText(c []lsEdge) string {
+	var r []string
+	for _, e := range c {
+		r = append(r, e.from+" -> "+e.to+" ["+e.where+"]")
+	}
+	return strings.Join(r, "; ")
+}
+
+func lsWaitSelfTest() error {
+	base, err := lsRunWaitSnippet(lsSelfWait)
+	if err != nil {
+		return err
+	}
+	// the correct server: the waits are listed with nothing held, the covered units with what they acquire, no cycle
+	if len(base.leaks) != 0 {
+		return fmt.Errorf("wait base: leaks reported: %+v", base.leaks)
+	}
+	for _, a := range base.accs {
+		if a.unknown || len(a.locks) != 1 {
+			return fmt.Errorf("wait base: access not guarded: %+v", a)
+		}
+	}
+	if !lsHasWait(base, "p.Srv.join", "", "wg:p.Srv.wg") || !lsHasWait(base, "p.Srv.Stop -> Srv.join", "", "wg:p.Srv.wg") {
+		return fmt.Errorf("wait base: wg.Wait() of join / of Stop through join not listed: %+v", base.waits)
+	}
+	if !lsHasWait(base, "p.Srv.Await", "", "ch:p.Srv.done") {
+		return fmt.Errorf("wait base: plain receive from the done channel not listed: %+v", base.waits)
+	}
+	for _, w := range base.waits {
+		if w.group == "ch:p.Srv.quit" || strings.HasPrefix(w.fn, "p.Srv.tick") {
+			return fmt.Errorf("wait base: a receive inside a multi-way select was taken for a wait: %+v", w)
+		}
+	}
+	if !lsHasCover(base, "wg:p.Srv.wg", "p.Srv.mu", "goroutine p.Srv.Start") || !lsHasCover(base, "wg:p.Srv.wg", "p.Srv.mu", "> Srv.loop") {
+		return fmt.Errorf("wait base: the go literal of Start is not listed as a covered unit acquiring mu through loop: %+v", base.covers)
+	}
+	if !lsHasCover(base, "ch:p.Srv.done", "p.Srv.mu", "p.Srv.finish") {
+		return fmt.Errorf("wait base: the closer of the done channel is not listed with the lock it takes: %+v", base.covers)
+	}
+	nWorker := 0
+	for _, m := range base.members {
+		if m.group == "wg:p.Srv.wg" && m.label == "p.Srv.worker" {
+			nWorker++
+		}
+	}
+	if nWorker != 1 {
+		return fmt.Errorf("wait base: the function worker (defer wg.Done()) is not listed as a covered unit: %+v", base.members)
+	}
+	if c := lsFindCycle(base.waitEdges()); c != nil {
+		return fmt.Errorf("wait base: cycle reported on the correct server: %s", lsCycleText(c))
+	}
+	type wm struct {
+		name, old, new string
+		cyclic         bool   // must the wait-for graph have a cycle?
+		through        string // ... through this node
+	}
+	muts := []wm{
+		{"waits under the lock the awaited goroutine takes", "\ts.stopped = true\n\ts.mu.Unlock()\n\ts.join()\n", "\ts.stopped = true\n\ts.join()\n\ts.mu.Unlock()\n", true, "wg:p.Srv.wg"},
+		{"waits under the lock, unlock deferred", "func (s *Srv) Stop() {\n\ts.mu.Lock()\n\ts.stopped = true\n\ts.mu.Unlock()\n\ts.join()\n", "func (s *Srv) Stop() {\n\ts.mu.Lock()\n\tdefer s.mu.Unlock()\n\ts.stopped = true\n\ts.wg.Wait()\n", true, "wg:p.Srv.wg"},
+		{"hand-off: loop no longer locks in the covered goroutine", "func (s *Srv) loop() {\n\ts.mu.Lock()\n\ts.n++\n\ts.mu.Unlock()\n}", "func (s *Srv) loop() {\n\tgo func() {\n\t\ts.mu.Lock()\n\t\ts.n++\n\t\ts.mu.Unlock()\n\t}()\n}\n\nfunc (s *Srv) StopLocked() {\n\ts.mu.Lock()\n\tdefer s.mu.Unlock()\n\ts.wg.Wait()\n}", false, ""},
+		{"a covered goroutine waits for its own group", "func (s *Srv) tick() {\n", "func (s *Srv) tick() {\n\ts.Stop()\n", true, "wg:p.Srv.wg"},
+		{"named covered function takes the lock, waiter holds it", "func (s *Srv) tick() {\n\tselect {", "func (s *Srv) StopLocked() {\n\ts.mu.Lock()\n\tdefer s.mu.Unlock()\n\ts.wg.Wait()\n}\n\nfunc (s *Srv) tick() {\n\ts.loop()\n\tselect {", true, "p.Srv.mu"},
+		{"receives from the done channel under the lock its closer takes", "\tn := s.n\n\ts.mu.Unlock()\n\t_ = n\n\t<-s.done\n", "\tn := s.n\n\t_ = n\n\t<-s.done\n\ts.mu.Unlock()\n", true, "ch:p.Srv.done"},
+		{"releases before receiving (the base order, written with defer in a helper)", "\t_ = n\n\t<-s.done\n", "\t_ = n\n\ts.recv()\n}\n\nfunc (s *Srv) recv() {\n\t<-s.done\n", false, ""},
+	}
+	// what the wait tracking cannot follow must be reported, not skipped
+	for _, u := range []struct{ name, old, new, fn string }{
+		{"WaitGroup handed to a helper", "func (s *Srv) join() {\n\ts.wg.Wait()\n}", "func (s *Srv) join() {\n\twaitFor(&s.wg)\n}\n\nfunc waitFor(g *sync.WaitGroup) {\n\tg.Wait()\n}", "p.Srv.join"},
+		{"wait inside a deferred literal", "func (s *Srv) join() {\n\ts.wg.Wait()\n}", "func (s *Srv) join() {\n\tdefer func() {\n\t\ts.wg.Wait()\n\t}()\n}", "p.Srv.join"},
+	} {
+		if strings.Count(lsSelfWait, u.old) != 1 {
+			return fmt.Errorf("wait mutant %q: anchor not unique", u.name)
+		}
+		o, err := lsRunWaitSnippet(strings.Replace(lsSelfWait, u.old, u.new, 1))
+		if err != nil {
+			return fmt.Errorf("wait mutant %q: %v", u.name, err)
+		}
+		if !lsHasLeak(o, u.fn, "not followed") {
+			return fmt.Errorf("wait mutant %q: not reported as not followed: %+v", u.name, o.leaks)
+		}
+	}
+	for _, m := range muts {
+		if strings.Count(lsSelfWait, m.old) != 1 {
+			return fmt.Errorf("wait mutant %q: anchor not unique", m.name)
+		}
+		o, err := lsRunWaitSnippet(strings.Replace(lsSelfWait, m.old, m.new, 1))
+		if err != nil {
+			return fmt.Errorf("wait mutant %q: %v", m.name, err)
+		}
+		if len(o.leaks) != 0 {
+			return fmt.Errorf("wait mutant %q: leaks reported: %+v", m.name, o.leaks)
+		}
+		for _, a := range o.accs {
+			if a.unknown || len(a.locks) != 1 {
+				return fmt.Errorf("wait mutant %q: access not guarded: %+v", m.name, a)
+			}
+		}
+		c := lsFindCycle(o.waitEdges())
+		if os.Getenv("VERIF_LS_VERBOSE") != "" {
+			fmt.Fprintf(os.Stderr, "wait mutant %q: cycle: %s\n", m.name, lsCycleText(c))
+		}
+		if m.cyclic {
+			on := false
+			for _, e := range c {
+				if e.from == m.through || e.to == m.through {
+					on = true
+				}
+			}
+			if c == nil || !on {
+				return fmt.Errorf("wait mutant %q: expected a cycle through %s, found: %s", m.name, m.through, lsCycleText(c))
+			}
+		} else if c != nil {
+			return fmt.Errorf("wait mutant %q: flagged although it cannot deadlock: %s", m.name, lsCycleText(c))
+		}
+	}
+	return nil
+}
+
 type lsMutant struct {
 	name     string
 	old, new string
@@ -153,6 +363,9 @@ func lsHasNest(o *lsOut, held, acq string) bool {
 }
 
 func lsSelfTest() error {
+	if err := lsWaitSelfTest(); err != nil {
+		return err
+	}
 	base, err := lsRunSnippet(lsSelfBase)
 	if err != nil {
 		return err
